@@ -510,7 +510,7 @@ pub fn fingerprint_collisions() -> &'static Vec<(&'static str, String, String)> 
     static C: OnceLock<Vec<(&'static str, String, String)>> = OnceLock::new();
     C.get_or_init(|| {
         let mut v = collision_pairs(&|n| format!("Guest {n:06}"), 300_000, 6);
-        v.extend(collision_pairs(&|n| format!("user{}\u{ff20}example", base36(n, 6)), 300_000, 6));
+        v.extend(collision_pairs(&|n| format!("user{}\u{ff41}example", base36(n, 6)), 300_000, 6));
         v.extend(collision_pairs(&|n| format!("pass\u{3000}{}", base36(n.wrapping_mul(2654435761), 7)), 300_000, 6));
         v.extend(collision_pairs(&|n| format!("Nick{}\u{c5}", base36(n, 5)), 300_000, 4));
         v
